@@ -7,6 +7,9 @@ require (
 	lukechampine.com/blake3 v1.0.0
 )
 
-require github.com/mitchellh/go-wordwrap v1.0.0 // indirect
+require (
+	github.com/mitchellh/go-wordwrap v1.0.0 // indirect
+	github.com/mroth/weightedrand v0.2.1 // indirect
+)
 
 replace github.com/TimothyStiles/poly => /repo
